@@ -53,6 +53,13 @@ pub enum Sem {
     MonthName { n: u32 },
     /// MM picture whose text is a month name (accepted by the fallback)
     MonthNumAsName { n: u32 },
+    /// MON / MONTH picture whose text is a month NUMBER. Whether that is accepted is not
+    /// C18's business; what C18 demands is that the outcome does not depend on the clock
+    /// when the text supplies the full date
+    MonthNameGivenNumber { n: u32 },
+    /// text after the last picture element (a zone designator as other systems write it, ...);
+    /// the same: accepted or not, the outcome must not depend on the clock
+    Trailing,
     Day { n: u32 },
     Doy { n: u32 },
     /// DY / DAY picture; wd 1 = Sunday .. 7 = Saturday
@@ -163,6 +170,8 @@ fn sem_to_json(s: &Sem) -> Value {
         Sem::Month { n } => json!({"k": "month", "n": n}),
         Sem::MonthName { n } => json!({"k": "month_name", "n": n}),
         Sem::MonthNumAsName { n } => json!({"k": "month_num_as_name", "n": n}),
+        Sem::MonthNameGivenNumber { n } => json!({"k": "month_name_given_number", "n": n}),
+        Sem::Trailing => json!({"k": "trailing_text"}),
         Sem::Day { n } => json!({"k": "day", "n": n}),
         Sem::Doy { n } => json!({"k": "doy", "n": n}),
         Sem::WdName { wd } => json!({"k": "wd_name", "n": wd}),
@@ -191,6 +200,8 @@ fn sem_from_json(v: &Value) -> Result<Sem, String> {
         "month" => Sem::Month { n: n()? },
         "month_name" => Sem::MonthName { n: n()? },
         "month_num_as_name" => Sem::MonthNumAsName { n: n()? },
+        "month_name_given_number" => Sem::MonthNameGivenNumber { n: n()? },
+        "trailing_text" => Sem::Trailing,
         "day" => Sem::Day { n: n()? },
         "doy" => Sem::Doy { n: n()? },
         "wd_name" => Sem::WdName { wd: n()? },
